@@ -110,6 +110,9 @@ func c18Case(w *core.W, j int) {
 	alg := allAlgs[j%len(allAlgs)]
 	bits := algBits[alg][0]
 	keyName := model.Name{[]byte("Sig0"), []byte("example")}
+	if j%5 == 1 {
+		keyName = model.Name{[]byte("upd[1]^"), []byte("k`eys{2}"), []byte("example")} // octets whose 0x20-partner is not a letter either
+	}
 	k, err := getKey(alg, bits, keyName.Pres(), 512, 3)
 	if err != nil {
 		w.Inconclusive("keygen:" + err.Error())
@@ -216,6 +219,25 @@ func c18Case(w *core.W, j int) {
 		w.Violation(keyf("own-signature-rejected/"+kindClass(kind)), fmt.Sprintf("Verify rejects what Sign produced (%d octets, kind %s): %v", len(out), kind, verr), wit)
 		return
 	}
+	// the same SIG value signs the next message (a signer keeps one SIG template per key)
+	{
+		m4 := m.Copy()
+		m4.Compress = m.Compress
+		m4.Id ^= 0x5555
+		var o4 []byte
+		var e4 error
+		reused := dns.Copy(sig).(*dns.SIG) // carries the Signature of the first call, like the original
+		if !w.Guard("SIG.Sign(reused)", wit, func() { o4, e4 = reused.Sign(k.Priv, m4) }) {
+			w.Count("reused_sig_signings", 1)
+			if e4 != nil {
+				w.Violation(keyf("reused-sig/sign-error"), fmt.Sprintf("signing a second message with the same SIG value fails: %v", e4), wit)
+			} else if ok, why := sig0ModelVerify(o4, keyName, alg, pub, now); !ok {
+				w.Violation(keyf("reused-sig/sign-output-invalid"), "a second message signed with the same SIG value does not verify under RFC 2931: "+why, wit)
+			} else if verr, ok := verify(reused, key, o4); ok && verr != nil {
+				w.Violation(keyf("reused-sig/own-signature-rejected"), fmt.Sprintf("Verify rejects the second message signed with the same SIG value: %v", verr), wit)
+			}
+		}
+	}
 	// with the SIG as a receiver would have it: decoded from the signed octets
 	var rsig *dns.SIG
 	{
@@ -293,9 +315,24 @@ func c18Case(w *core.W, j int) {
 			w.Violation(keyf("accepts-other-signer-name"), "the signed message verifies although the key's owner differs from the signer name", wit)
 		}
 		w.Count("key_alterations", 2)
+		// a key owner that differs from the signer name in one octet by 0x20 where neither is a letter
+		kn := keyName.Pres()
+		for i := 0; i < len(kn); i++ {
+			switch kn[i] {
+			case '[', ']', '^', '`', '{', '}', '~':
+				key4 := &dns.KEY{DNSKEY: *dns.Copy(k.Key).(*dns.DNSKEY)}
+				key4.Hdr.Rrtype = dns.TypeKEY
+				key4.Hdr.Name = kn[:i] + string(kn[i]^0x20) + kn[i+1:]
+				if verr, ok := verify(sig, key4, out); ok && verr == nil {
+					w.Violation(keyf("accepts-other-signer-name/0x20-nonletter"), fmt.Sprintf("signer %q verifies under a key owned by %q", kn, key4.Hdr.Name), wit)
+				}
+				w.Count("key_alterations", 1)
+			}
+		}
 	}
 	// (g) outside the window (one hour margins to the real clock)
-	for _, win := range [][2]uint32{{now - 7200, now - 3600}, {now + 3600, now + 7200}} {
+	// ... and windows that are empty because the expiration lies before the inception
+	for _, win := range [][2]uint32{{now - 7200, now - 3600}, {now + 3600, now + 7200}, {now - 3600, now - 7200}, {now + 7200, now + 3600}, {now - 3600, 0}, {now - 3600, 1}, {0xFFFFFFFF, now + 3600}} {
 		s2 := &dns.SIG{RRSIG: dns.RRSIG{KeyTag: key.KeyTag(), SignerName: keyName.Pres(), Algorithm: alg, Inception: win[0], Expiration: win[1]}}
 		m3 := m.Copy()
 		m3.Compress = m.Compress
